@@ -311,6 +311,43 @@ fn container_leg(seed: u64) -> (u64, Vec<String>) {
             check("Kdf::derive_subkey", vec![s1, s3.as_slice().to_vec(), s4.as_slice().to_vec()]);
         }
     }
+    // precomputed box keys: stack vs locked vs read-only locked constructors, for honest and for
+    // arbitrary (twist / small-order-component / non-canonical) third-party public keys
+    {
+        use dryoc::keypair::KeyPair;
+        use dryoc::precalc::PrecalcSecretKey;
+        let pts = c05::points(seed, Tier::Quick);
+        let sks: Vec<[u8; 32]> = (0..4).map(|i| karr(seed ^ 0x9c, i + 1)).collect();
+        for (pi, pk) in pts.iter().enumerate() {
+            if pi % 5 != 0 && pi > 40 {
+                continue;
+            }
+            for sk in &sks {
+                let classic = dryoc::classic::crypto_box::crypto_box_beforenm(pk, sk);
+                let a = PrecalcSecretKey::precalculate(pk, sk);
+                let b = PrecalcSecretKey::precalculate_locked(pk, sk).unwrap();
+                let c = PrecalcSecretKey::precalculate_readonly_locked(pk, sk).unwrap();
+                let lkp: KeyPair<Locked<HeapByteArray<32>>, Locked<HeapByteArray<32>>> = KeyPair { public_key: HeapByteArray::<32>::from_slice_into_locked(&sodium::scalarmult_base(sk)).unwrap(), secret_key: HeapByteArray::<32>::from_slice_into_locked(sk).unwrap() };
+                let d = lkp.precalculate_locked(pk).unwrap();
+                let outs = vec![classic.to_vec(), a.as_slice().to_vec(), b.as_slice().to_vec(), c.as_slice().to_vec(), d.as_slice().to_vec()];
+                n += outs.len() as u64;
+                if outs.iter().any(|o| o != &outs[0]) {
+                    bad.push(format!("PrecalcSecretKey::precalculate at public key {}: stack / locked / read-only-locked constructors disagree", hx(pk)));
+                }
+            }
+        }
+        // and a box made with a locked precomputed key equals the classic one
+        for len in [0usize, 1, 17, 100] {
+            let m = cval(seed, 3, len);
+            let lk = PrecalcSecretKey::precalculate_locked(&ks.pk_b, &ks.sk_a).unwrap();
+            let b1: dryoc::dryocbox::VecBox = DryocBox::precalc_encrypt_to_vecbox(&m, &StackByteArray::<24>::from(&ks.n), &lk).unwrap();
+            let want = aead::ref_wire(aead::Fam::Bx, &ks, &m);
+            n += 1;
+            if b1.to_vec() != want {
+                bad.push(format!("DryocBox::precalc_encrypt with a locked precomputed key at len {}: differs from libsodium", len));
+            }
+        }
+    }
     (n, bad)
 }
 #[cfg(not(feature = "nightly"))]
